@@ -360,9 +360,9 @@ func liveComponent(r *hx.Run) {
 	rec(nil)
 
 	// 2. random scripts, every kind of cancel
-	nRand := 150
+	nRand := 300
 	if thorough {
-		nRand = 1500
+		nRand = 5000
 	}
 	for j := 0; j < nRand; j++ {
 		np := 1 + r.Rng.Intn(4)
